@@ -3,6 +3,8 @@ from .core import an, strip_generics as sg, edges_where, bool_edges, propagation
 from . import flow, paths
 from . import rules_c05 as c05
 from . import rules_c16 as c16
+from . import rules_c04 as c04
+from .rules_c11 import _Alias
 
 EXPLANATION = (
     'Decides: (R15a) in FileDeduper::process_chunks the push of a chunk into the pending xorb and the matching size add are reached, within an iteration, only through the not-exceeding '
@@ -28,6 +30,9 @@ def run(ctx):
     ctx.guarded('R15c', c16.REGC, lambda: r15c(ctx))
     ctx.guarded('R15d', AGG + 'finalize', lambda: r15d(ctx))
     ctx.guarded('R15e', 'constants', lambda: r15e(ctx))
+    ctx.rule('R15f', 'no chunk longer than the maximum: the forced cut compares cur_chunk_len + advance with maximum_chunk and the search window ends at maximum_chunk - cur_chunk_len (= C04-R04c), and cur_chunk_len equals the number of bytes buffered at every chunk creation and return (= C04-R04d)')
+    ctx.guarded('R15f', c04.NEXT, lambda: c04.r04c(_Alias(ctx, 'R04c', 'R15f')))
+    ctx.guarded('R15f', c04.NEXT, lambda: c04.length_tracking(ctx, 'R15f'))
 
 
 def is_limit(e, name):
